@@ -228,7 +228,8 @@ def conclude(prop, tier, seed, specs, results, metas, crashes, nat, group_wall, 
         print("KNOWN-FINDING: property=%s %s (%s)" % (prop, kf.get("what", kf["key"]), r["name"]))
     # evidence ---------------------------------------------------------
     level = getattr(mod, "LEVEL", "other")
-    pg = [r for r in results if r["kind"] in ("P", "G")]
+    known_names = {r["name"] for _, r in knowns}
+    pg = [r for r in results if r["kind"] in ("P", "G") and r["name"] not in known_names]
     bb = [r for r in results if r["kind"] == "B"]
     proved = [r for r in pg if r["status"] == "proved"]
     be_count, be_time = {}, {}
